@@ -27,13 +27,14 @@ def stagedProto (tmp p : String) (i : Nat) (ws : List (Sys β)) : List (Sys β) 
 /-- `Memvid::commit` as recorded: the pending-records scan rewrites the sentinel of the original
     (`sent`: the zero bytes already there), `with_staging_lock` fsyncs the original, creates the temp
     file, truncates it, copies the whole original (`copy`), fsyncs; `inner` = everything
-    `commit_from_records` writes into the temp file; two more fsyncs (`with_staging_lock`,
-    `AtomicWriteFile::commit`), rename, directory fsync; finally `EmbeddedWal::open` on the reopened
+    `commit_from_records` writes into the temp file (it ends with its own fsync); one more fsync by
+    `with_staging_lock`, then `AtomicWriteFile::commit` = the fsync, rename, directory fsync of
+    `stagedProto`; finally `EmbeddedWal::open` on the reopened
     path rewrites the sentinel (`sentNew`) -/
 def stagedCommit (tmp p : String) (o i : Nat) (sentOff : Nat) (sent : List β) (copy : List β)
     (inner : List (Sys β)) (sentNewOff : Nat) (sentNew : List β) : List (Sys β) :=
   [.pwrite o sentOff sent, .fsync o] ++
-  stagedProto tmp p i ([.ftruncate i 0, .pwrite i 0 copy, .fsync i] ++ inner ++ [.fsync i, .fsync i]) ++
+  stagedProto tmp p i ([.ftruncate i 0, .pwrite i 0 copy, .fsync i] ++ inner ++ [.fsync i]) ++
   [.pwrite i sentNewOff sentNew]
 
 /-- `append_entry` (current code): ONE write of header+payload at the write head, fsync, then the
@@ -60,6 +61,31 @@ def growProto (o : Nat) (oldLen delta dataStart : Nat) (chunks : List (Nat × Li
   chunks.map (fun c => Sys.pwrite o (c.1 + delta) c.2) ++
   (zeroFill.foldl (fun (acc : List (Sys β) × Nat) z => (acc.1 ++ [Sys.pwrite o acc.2 z], acc.2 + z.length))
       ([], dataStart)).1 ++
+  rewriteTocProto o tocOff toc footer ++ [.pwrite o 0 header, .fsync o]
+
+/-- the in-place half of `vacuum` (after its staged commit): active payloads are re-written
+    back to back from the end of the log region — over the old payload area, while the only valid TOC
+    still lists the OLD offsets — then `rebuild_indexes` truncates, writes the segments, rewrites TOC
+    and footer and persists the header -/
+def vacuumProto (o : Nat) (payloads : List (Nat × List β)) (truncTo : Nat) (segments : List (Nat × List β))
+    (tocOff : Nat) (toc footer header : List β) : List (Sys β) :=
+  payloads.map (fun c => Sys.pwrite o c.1 c.2) ++ [.ftruncate o truncTo] ++
+  segments.map (fun c => Sys.pwrite o c.1 c.2) ++
+  rewriteTocProto o tocOff toc footer ++ [.pwrite o 0 header, .fsync o]
+
+/-- `commit_skip_indexes` ("skips the staging lock for performance — not crash-safe" says its doc
+    comment): sentinel rewrite, replayed payloads at `data_end`, TOC+footer in place, sentinel,
+    header with the new checkpoint, fsync -/
+def skipIndexProto (o : Nat) (sentOff : Nat) (sent : List β) (payloads : List (Nat × List β))
+    (tocOff : Nat) (toc footer header : List β) : List (Sys β) :=
+  [.pwrite o sentOff sent] ++ payloads.map (fun c => Sys.pwrite o c.1 c.2) ++
+  rewriteTocProto o tocOff toc footer ++ [.pwrite o sentOff sent, .pwrite o 0 header, .fsync o]
+
+/-- `finalize_indexes` = `rebuild_indexes` in place: truncate to the footer offset (this removes
+    the only TOC), segments, TOC+footer, header -/
+def finalizeProto (o : Nat) (truncTo : Nat) (segments : List (Nat × List β)) (tocOff : Nat)
+    (toc footer header : List β) : List (Sys β) :=
+  [.ftruncate o truncTo] ++ segments.map (fun c => Sys.pwrite o c.1 c.2) ++
   rewriteTocProto o tocOff toc footer ++ [.pwrite o 0 header, .fsync o]
 
 /-- open-time recovery (`EmbeddedWal::open` sentinel, `recover_wal` → `apply_records` →
